@@ -1,5 +1,154 @@
-"""Kani harness runner (DESIGN.md section 4.4) -- filled in with the Kani units."""
+"""Kani harness runner (DESIGN.md section 4.4).
+
+Harness sources live in /verif/kani/*.rs and are compiled INTO the real crates through the
+cfg(kani) hooks.  `cargo kani` is run in the repository's working tree itself with an external
+--target-dir, so nothing is written into /repo and the build always reflects the current tree.
+
+A harness is reported as
+  complete  -- loop-free (or constant trip counts fully unrolled, unwinding assertions on) and its
+               symbolic inputs span the function's whole domain: counted under obligations/discharged;
+  bounded   -- otherwise: reported under coverage.bounded with its bound, never counted as proved.
+"""
+import fcntl
+import os
+import re
+import subprocess
+import time
+
+# harness catalogue: name -> (crate, complete?, bound text, tier, serves)
+HARNESSES = {
+    # U-PRIMNAMES
+    'primnames_table': dict(crate='scale-typegen-description', file='description.rs', complete=True, bound=None, tier='quick',
+                            what='primitive_type_description names all 15 primitives as the property states'),
+    # U-PRIMEX
+    **{('primex_' + n): dict(crate='scale-typegen-description', file='scale_value.rs', complete=True, bound=None, tier='quick',
+                             what='primitive_type_def_example(%s, any RNG stream) has the right kind and fits the width' % n)
+       for n in ['bool', 'u8', 'u16', 'u32', 'u64', 'u128', 'i8', 'i16', 'i32', 'i64', 'i128', 'u256', 'i256']},
+    'primex_char_bounded': dict(crate='scale-typegen-description', file='scale_value.rs', complete=False, tier='quick',
+                                bound='RNG streams that make SliceRandom::choose reject fewer than 8 times',
+                                what='Char example is a Primitive::Char'),
+    'primex_str_bounded': dict(crate='scale-typegen-description', file='scale_value.rs', complete=False, tier='quick',
+                               bound='RNG streams that make SliceRandom::choose reject fewer than 8 times',
+                               what='Str example is a Primitive::String'),
+    # typegen crate
+    'sanity_pass_upto4': dict(crate='scale-typegen', file='typegen.rs', complete=False, tier='quick',
+                              bound='registries of 0..4 entries with unconstrained u32 ids; alloc::fmt::format stubbed',
+                              what='UNMODIFIED sanity_pass: Ok <=> ids consistent; error names a genuine mismatch', stub='alloc :: fmt :: format'),
+    'uint_predicate_table': dict(crate='scale-typegen', file='typegen.rs', complete=False, tier='quick',
+                                 bound='TypePathType in {Primitive x 15, Vec, Array, Tuple} (the variants constructible without syn/proc_macro2)',
+                                 what='is_uint_up_to_u128 on the real crate'),
+    'compact_as_unnamed_upto3': dict(crate='scale-typegen', file='typegen.rs', complete=False, tier='quick',
+                                     bound='NoFields / Unnamed with <= 3 fields; first field symbolic over {Primitive x 15, Vec, Array, Tuple}',
+                                     what='could_derive_as_compact on the real crate'),
+}
+
+LOCK = '/tmp/verif-kani.lock'
 
 
-def run_group(pid, harnesses, tier, repo, verif, build):
-    return []
+def run_group(pid, names, tier, repo, verif, build):
+    """Run the named harnesses (one cargo-kani invocation per crate).  Returns one result per harness."""
+    results = []
+    by_crate = {}
+    for n in names:
+        h = HARNESSES[n]
+        if h['tier'] == 'thorough' and tier != 'thorough':
+            continue
+        by_crate.setdefault(h['crate'], []).append(n)
+    os.makedirs(build, exist_ok=True)
+    target = os.path.join(build, 'kani-target')
+    env = dict(os.environ, CARGO_NET_OFFLINE='true', SCALE_TYPEGEN_VERIF_DIR=verif)
+    with open(LOCK, 'w') as lk:
+        fcntl.flock(lk, fcntl.LOCK_EX)   # one cargo-kani at a time on the shared target dir
+        for crate, hs in by_crate.items():
+            cmd = ['cargo', 'kani', '-p', crate, '--target-dir', target, '-Z', 'function-contracts', '-Z', 'stubbing',
+                   '--output-format', 'terse', '-j', str(min(8, len(hs)))]
+            for h in hs:
+                cmd += ['--harness', h]
+            t0 = time.time()
+            try:
+                p = subprocess.run(cmd, cwd=repo, env=env, stdout=subprocess.PIPE, stderr=subprocess.STDOUT, text=True,
+                                   timeout=3600 if tier == 'thorough' else 1500)
+                out, rc, to = p.stdout, p.returncode, False
+            except subprocess.TimeoutExpired as e:
+                out = (e.stdout or b'').decode(errors='replace') if isinstance(e.stdout, bytes) else (e.stdout or '')
+                rc, to = -1, True
+                subprocess.run(['pkill', 'cbmc'])
+            wall = time.time() - t0
+            per = parse(out, hs)
+            for h in hs:
+                meta = HARNESSES[h]
+                r = {'unit': 'kani:' + h, 'engine': 'kani', 'harness': h, 'complete': meta['complete'], 'bound': meta.get('bound'),
+                     'checker_cmd': ' '.join(cmd), 'failures': [], 'undecided': [], 'wall_s': wall / max(1, len(hs)),
+                     'scan_paths': [os.path.join(verif, 'kani', meta['file'])]}
+                ph = per.get(h)
+                if to or ph is None:
+                    why = 'cargo kani timed out' if to else 'no result for harness in Kani output (compile error, ICE or harness missing): ' + tail(out)
+                    r.update(status='undecided', undecided=[{'reason': why}])
+                    results.append(r)
+                    continue
+                r['checks'] = ph['total']
+                r['checks_ok'] = ph['total'] - ph['failed']
+                r['evidence'] = {'what': meta['what'], 'cbmc_checks': ph['total'], 'failed': ph['failed'], 'unreachable': ph['unreachable'],
+                                 'covers': '%d of %d' % (ph['cov_ok'], ph['cov_total']), 'verification_time_s': ph['time'],
+                                 'backend': 'Kani 0.68.0 -> CBMC 6.11.0 (CaDiCaL)', 'complete': meta['complete'], 'bound': meta.get('bound')}
+                if ph['result'] == 'SUCCESSFUL':
+                    if ph['cov_ok'] != ph['cov_total']:
+                        r.update(status='undecided', undecided=[{'reason': 'vacuity guard: only %d of %d cover properties satisfied' % (ph['cov_ok'], ph['cov_total'])}])
+                    elif meta.get('stub') and meta['stub'] not in ph['text']:
+                        r.update(status='undecided', undecided=[{'reason': 'expected stub line `%s` not printed by Kani' % meta['stub']}])
+                    else:
+                        r['status'] = 'verified'
+                else:
+                    fails = ph['failed_checks']
+                    infra = [f for f in fails if re.search(r'unwinding assertion|unsupported|not supported|recursion unwinding', f, re.I)]
+                    real = [f for f in fails if f not in infra]
+                    if real:
+                        r['status'] = 'failed'
+                        for f in real:
+                            r['failures'].append({'kind': 'kani-assertion', 'message': f, 'label': 'kani:%s/%s' % (h, f),
+                                                  'rendered': ph['text'][-3000:], 'where': {'text': f, 'origin': {'kind': 'kani', 'file': 'kani/' + meta['file']}}})
+                    else:
+                        r.update(status='undecided', undecided=[{'reason': 'Kani failed without a property failure (unwinding / unsupported construct): %s' % (infra or tail(ph['text']))}])
+                results.append(r)
+    return results
+
+
+def tail(s, n=600):
+    return (s or '')[-n:]
+
+
+def parse(out, names):
+    """terse multi-thread output -> {harness: {...}}"""
+    cur = {}      # thread -> harness
+    blocks = {}   # harness -> text
+    last_thread = None
+    single = None
+    for line in out.splitlines():
+        m = re.match(r'(?:Thread (\d+): )?Checking harness (\S+?)\.\.\.', line)
+        if m:
+            t = m.group(1) or 'main'
+            short = m.group(2).split('::')[-1]
+            cur[t] = short
+            blocks.setdefault(short, '')
+            last_thread = t
+            continue
+        m = re.match(r'Thread (\d+): ?(.*)', line)
+        if m:
+            last_thread = m.group(1)
+            line = m.group(2)
+        if last_thread in cur:
+            blocks[cur[last_thread]] += line + '\n'
+    res = {}
+    for h, text in blocks.items():
+        m = re.search(r'\*\* (\d+) of (\d+) failed(?: \((\d+) unreachable\))?', text)
+        v = re.search(r'VERIFICATION:- (\w+)', text)
+        if not v:
+            continue
+        c = re.search(r'\*\* (\d+) of (\d+) cover properties satisfied', text)
+        tm = re.search(r'Verification Time: ([\d\.]+)s', text)
+        failed_checks = re.findall(r'Failed Checks: (.*)', text)
+        res[h] = {'failed': int(m.group(1)) if m else 0, 'total': int(m.group(2)) if m else 0,
+                  'unreachable': int(m.group(3) or 0) if m else 0, 'result': v.group(1),
+                  'cov_ok': int(c.group(1)) if c else 0, 'cov_total': int(c.group(2)) if c else 0,
+                  'time': float(tm.group(1)) if tm else None, 'failed_checks': failed_checks, 'text': text}
+    return res
